@@ -59,7 +59,7 @@ RULE = (
     "(exhaustive) + random op lists (cap 1..5, ttl 1..6, pool cap-1..cap+2, monotone / jittering / constant / jumping "
     "clocks); K2/O: hand-written + random thread programs (2-3 threads, overlapping nonces, ticks, cap 1..4), every "
     "schedule with <= 2 (quick) / 3 (thorough) preemptions at lock/clock granularity (capped), capped exploration "
-    "with line-level preemption and an unlocked size observer, then PCT/random-walk schedules. A concurrent case is "
+    "with line-level preemption (every method of the class; constructing a lock inside a call is a scheduling point too) and an unlocked size observer, first-use programs (fresh cache, the first overlapping calls present the same nonce) explored with line-level preemption, then PCT/random-walk schedules. A concurrent case is "
     "non-trivial when at least two threads executed a call; distinct by (programs, cap, ttl, mode, schedule)"
 )
 MANIFEST = {
@@ -270,10 +270,12 @@ def make_setup(R: Any, cfg: dict[str, Any]) -> Any:
 
 
 def make_sched(R: Any, cfg: dict[str, Any]) -> DetSched:
-    ds = DetSched(step_limit=5000, wall_limit=20.0)
+    # creation_points: building a Lock INSIDE a call (a lazily created lock) is a scheduling point between the
+    # construction and the store; on a cache whose lock is made in __init__ (harness thread) it adds nothing
+    ds = DetSched(step_limit=5000, wall_limit=20.0, creation_points=True)
     ds.patch(R, "threading", "time")
     if cfg.get("lines"):
-        ds.preempt_lines(R.NonceCache.check_and_add, R.NonceCache._sweep)
+        ds.preempt_lines(R.NonceCache)  # every method of the class, helpers a call goes through included
     return ds
 
 
@@ -336,6 +338,8 @@ def analyse(cfg: dict[str, Any], run: Any) -> dict[str, Any]:
             events.append(["ret", tid, ev[3]])
         elif k == "size":
             sizes.append(ev[2])
+        elif k == "new":
+            anomalies.append(f"synchronisation primitive {ev[2]} created inside a call (thread {tid})")
         elif k in ("exc", "tick-auto", "line"):
             pass
         else:
@@ -428,6 +432,28 @@ CONC_CORPUS: list[dict[str, Any]] = [
     # clock stepping backwards (an injected non-monotone clock source)
     {"cap": 2, "ttl": 2, "progs": [[["tick", 3], ["op", 1], ["tick", -2], ["op", 1]], [["op", 2], ["tick", 1], ["op", 1]]]},
 ]
+
+
+# FIRST USE of a fresh cache: the very first calls overlap and present the same nonce (whatever the cache sets up
+# lazily on first use — its lock included — is set up under contention).  Small programs, line-level preemption,
+# no observer, explored to exhaustion within the preemption bound.
+FIRST_USE: list[dict[str, Any]] = [
+    {"cap": 1, "ttl": 4, "progs": [[["op", 1]], [["op", 1]]]},
+    {"cap": 2, "ttl": 4, "progs": [[["op", 1]], [["op", 1]], [["op", 1]]]},
+    {"cap": 2, "ttl": 4, "progs": [[["op", 1], ["op", 2]], [["op", 1]]]},
+    {"cap": 1, "ttl": 4, "progs": [[["op", 1]], [["op", 2], ["op", 1]]]},
+]
+
+
+def gen_first_use(rng: Any) -> dict[str, Any]:
+    cap = rng.choice([1, 2, 3])
+    n = rng.randrange(cap + 1)
+    progs: list[list[list[Any]]] = [[["op", n]], [["op", n]]]
+    if rng.random() < 0.4:
+        progs.append([["op", rng.randrange(cap + 1)]])
+    elif rng.random() < 0.5:
+        progs[rng.randrange(2)].append(["op", rng.randrange(cap + 1)])
+    return {"cap": cap, "ttl": rng.choice([2, 4]), "progs": progs}
 
 
 def gen_conc(rng: Any, threads: int) -> dict[str, Any]:
@@ -543,6 +569,9 @@ def run(ctx: Any) -> None:
     per = ctx.budget(160, 2000)
     for c in CONC_CORPUS:
         cfgs.append((dict(c, src="corpus"), per, bound, per // 8))
+    first = ctx.budget(700, 6000)
+    for c in FIRST_USE + [gen_first_use(rng) for _ in range(ctx.budget(2, 12))]:
+        cfgs.append((dict(c, src="first-use", lines=True), first, bound, first // 10))
     for c in CONC_CORPUS[:4]:
         cfgs.append((dict(c, src="corpus", lines=True, observer=3), per, bound, per // 4))
     for i in range(ctx.budget(8, 30)):
